@@ -75,6 +75,18 @@ def do_case(ctx, inp):
         want_idx = [g.index[i].id for i, m in enumerate(rm or [0] * len(p["rows"])) if not m]
         if [v.id for v in R2.index] != want_idx:
             ctx.fail("result-index-does-not-describe-rows", {"index": [v.id for v in R2.index], "expected": want_idx, "call": name})
+    # the same polyhedron object reduced once more after the calls above: the statement holds for every call, so the
+    # oracle below judges the later result whenever it differs from the first
+    try:
+        with time_limit(5):
+            fr2, fc2 = g.reducable_rows_and_columns()
+            RB = g.reduce(fr2, fc2)
+    except CallTimeout as e:
+        ctx.fail("reduction-does-not-terminate", {"detail": str(e), "call": "second reduction of the same object"}); return
+    fr2_l, fc2_l, RsB = [int(v) for v in np.asarray(fr2).tolist()], nan_list(fc2), snap_poly(RB)
+    if (fr2_l, fc2_l, RsB) != (frows_l, fcols_l, Rs):
+        ctx.tags["second-reduction-of-the-same-object-differs"] += 1
+        frows_l, fcols_l, Rs = fr2_l, fc2_l, RsB
     if box_size(p) > (20000 if ctx.quick else 200000):
         ctx.tags["box-not-enumerated"] += 1
         return
